@@ -120,6 +120,14 @@ CLAIMS = {
              'popitem ...) report the change to the owner, give the builtin\'s result and wrap container arguments so that later nested changes are reported; non-mutating '
              'methods report nothing. Entity._attr_changed_ for every object status. End-to-end persistence of each mutator at nesting depth 1..4 on a real session is BOUNDED.',
         note='Ground obligations. The mutator list is tied to the running CPython (3.12): a new mutator in a later Python shows up as a start-up discrepancy (exit 3).'),
+    'C34': dict(
+        category='other',
+        text='BOUNDED stand-in (never counted as proved): the real has_perm / can_view / can_edit on real entities with <= 2/3 access rules on the entity and <= 2 on the '
+             'reverse entity, every combination of per-rule predicates (groups, roles, labels satisfied; entity / attribute excluded), entity / plain attribute / hidden '
+             'attribute / relationship attribute / object targets, both iteration orders of the rule collection, checked against the declarative reading of the rules; '
+             'repeated calls agree; AccessRule.exclude covers subclasses and refuses primary keys.',
+        note='K rules per entity is the bound. Database.to_json filtering is not covered. get_user_groups / roles / labels are stubs.',
+        technique='contract on the real function vs a declarative spec, bounded exhaustive enumeration of rule sets (contract-based family, bounded stand-in)'),
 }
 
 _NOT_BUILT = 'within reach of the technique per DESIGN.md, check not built yet'
